@@ -31,6 +31,21 @@ from sa.paths import always_exits, clone
 MAX_BODY = 80      # statements; larger helpers are real functions, not extracted blocks
 
 
+def _clone(node):
+    if isinstance(node, list):
+        return [_clone(x) for x in node]
+    if not isinstance(node, ast.AST):
+        return node
+    new = type(node)()
+    for fld in node._fields:
+        if hasattr(node, fld):
+            setattr(new, fld, _clone(getattr(node, fld)))
+    for a in ("lineno", "col_offset", "end_lineno", "end_col_offset", "_mod"):
+        if hasattr(node, a):
+            setattr(new, a, getattr(node, a))
+    return new
+
+
 def _is_private(name: str) -> bool:
     return name.startswith("__") and not name.endswith("__")
 
@@ -292,6 +307,9 @@ class Flattener:
             s.orelse = self._block(s.orelse, f, tail)
             return pre + [s]
         if isinstance(s, ast.For):
+            un = self._unroll_method_table(s)
+            if un is not None:
+                return self._block(un, f)
             pre, s.iter = self._hoist_expr(s.iter, f, s)
             s.body = self._block(s.body, f) or [ast.Pass()]
             s.orelse = self._block(s.orelse, f)
@@ -354,6 +372,41 @@ class Flattener:
                     t.slice = new
                     pre_all.extend(pre)
         return pre_all + [s]
+
+    def _unroll_method_table(self, s: ast.For) -> Optional[List[ast.stmt]]:
+        """``for build in [self.__a, self.__b]: block.add(build())`` is the straight-line sequence of
+        the calls: unroll a loop over a literal list of method references whose variable is only
+        ever called."""
+        if not (isinstance(s.iter, (ast.List, ast.Tuple)) and 0 < len(s.iter.elts) <= 16 and
+                isinstance(s.target, ast.Name) and not s.orelse):
+            return None
+        if not all(isinstance(e, ast.Attribute) and isinstance(e.value, ast.Name) for e in s.iter.elts):
+            return None
+        v = s.target.id
+        for st in s.body:
+            for n in ast.walk(st):
+                if isinstance(n, (ast.Break, ast.Continue)):
+                    return None
+                if isinstance(n, ast.Name) and n.id == v:
+                    if not isinstance(n.ctx, ast.Load):
+                        return None
+        # every use of the variable is the callee of a call
+        callee_ids = {id(n.func) for st in s.body for n in ast.walk(st)
+                      if isinstance(n, ast.Call) and isinstance(n.func, ast.Name) and n.func.id == v}
+        uses = [n for st in s.body for n in ast.walk(st) if isinstance(n, ast.Name) and n.id == v]
+        if not uses or any(id(n) not in callee_ids for n in uses):
+            return None
+
+        out: List[ast.stmt] = []
+        for e in s.iter.elts:
+            class R(ast.NodeTransformer):
+                def visit_Name(self, node):
+                    if node.id == v:
+                        return ast.copy_location(_clone(e), node)
+                    return node
+            for st in s.body:
+                out.append(R().visit(_clone(st)))
+        return out
 
     def _note(self, h, inlined: bool) -> None:
         d = self.inlined_sites if inlined else self.kept_sites
